@@ -402,6 +402,24 @@ func (env *rEnv) call(n *rNode) Value {
 			}
 			return env.fail("no such call to %s on this path", n.Args[0].Text)
 		}
+	case "callretN":
+		// callretN("Short", k, i): i-th result of the k-th (0-based) modular call to that function
+		if n.Args[0].Op == "str" && len(n.Args) == 3 {
+			k, ok1 := constIndex(env.eval(n.Args[1]))
+			idx, ok2 := constIndex(env.eval(n.Args[2]))
+			if ok1 && ok2 {
+				c := 0
+				for _, ev := range env.post.trace {
+					if ev.Kind == "ret:"+n.Args[0].Text {
+						if c == k && idx < len(ev.Args) {
+							return ev.Args[idx]
+						}
+						c++
+					}
+				}
+			}
+			return env.fail("no such call to %s on this path", n.Args[0].Text)
+		}
 	case "calltargetnil":
 		// calltargetnil("Short", i): what the i-th (pointer) argument of the last modular call to Short pointed to was nil
 		// (a nil map/slice/pointer) when the call was made
